@@ -27,6 +27,10 @@ CHECKS = {
   technique="TLA+ spec (RedisKeyspace.tla) model-checked with TLC for ErrorChangesNothing / ReadOnlyChangesNothing; failure-biased traces of the real executor validated by TLC (KsTrace.tla) with model-independent rules on the recorded keyspaces",
   text="for every recorded step whose reply is an error or whose command the code's is_read_only() table classifies as read-only, the recorded visible keyspace before and after (keys, types, values, deadlines at that instant) must be equal, and the code's read-only table must be contained in the model's; 35% of commands come from a pool of out-of-model failures (bad arity/options, stubs, bit/float/scan commands, failing scripts)",
   note="scripts failing after a successful redis.call excluded; MULTI/EXEC excluded (C05)"),
+ "C03": dict(
+  technique="TLA+ specs (Sharding.tla router model, RedisKeyspace.tla as the one-keyspace semantics) model-checked with TLC; TLC-exported and random command sequences run on real ShardedActorStates with N in {1,2,4,(3,16)} over all entry points; traces validated by TLC (KsTrace.tla) against the ONE-keyspace specification",
+  text="design level: OneHome / ReadsAgree / Refines for the router and counterexamples for the two as-built deviations; implementation level: an N-shard server is checked as an implementation of RedisKeyspace: every reply and the keyspace observed through commands (KEYS/TYPE/PTTL/dumps) after every step, with GET/SET spread over generic, fast, pooled and batched entry points, plus two-key command and full-SCAN families",
+  note="UTF-8 keys; shared harness clock; three open findings reported as KNOWN-FINDING"),
  "C06": dict(
   technique="TLA+ spec (Replication.tla: executor + CRDT state + clock per node, reordering/duplicating/delaying network, anti-entropy) model-checked with TLC; TLC-exported step sequences replayed on real ReplicatedShardActors with the harness as network; traces validated by TLC (ReplTrace.tla)",
   text="design level: ServedIsState at every step and Converged at quiescence on 3 nodes for register and hash command sets; each repaired defect and the open type-change finding are reproduced by an as-built switch; implementation level: every exported configuration and thousands of random runs (2-4 nodes, all listed commands, duplicates, delays, anti-entropy) are replayed on the real actors and TLC compares replication state and served value of EVERY node after EVERY step, and agreement whenever nothing is in flight",
